@@ -1,30 +1,56 @@
 #!/usr/bin/env python3
 """run every seeded change against its property's check (and extra checks named on the command line as ID=CHECK pairs);
-writes seeded/RESULTS.json + RESULTS.md. Uses scratch worktrees only."""
-import json, os, subprocess, sys, re
+writes seeded/RESULTS.json + RESULTS.md. Uses scratch worktrees only. --fresh ignores cached results, -jN runs N at a time."""
+import json, os, subprocess, sys, re, threading
+from concurrent.futures import ThreadPoolExecutor
 V = '/verif'
-extra = dict(a.split('=') for a in sys.argv[1:] if '=' in a)
-only = [a for a in sys.argv[1:] if '=' not in a]
-res = json.load(open(V + '/seeded/RESULTS.json')) if os.path.exists(V + '/seeded/RESULTS.json') else {}
+argv = sys.argv[1:]
+fresh = '--fresh' in argv
+jobs = max([int(a[2:]) for a in argv if a.startswith('-j')] + [1])
+argv = [a for a in argv if a != '--fresh' and not a.startswith('-j')]
+extra = {}
+for a in argv:
+    if '=' in a:
+        extra.setdefault(a.split('=')[0], []).append(a.split('=')[1])
+# related checks known to catch a change its own check cannot see
+for sid, chk in (('C09A', 'C16'), ('C07C', 'C01'), ('C15C', 'C19')):
+    extra.setdefault(sid, []).append(chk)
+only = [a for a in argv if '=' not in a]
+res = json.load(open(V + '/seeded/RESULTS.json')) if os.path.exists(V + '/seeded/RESULTS.json') and not fresh else {}
+lock = threading.Lock()
+todo = []
 for sid in sorted(os.listdir(V + '/seeded')):
     d = os.path.join(V, 'seeded', sid)
     if not os.path.isdir(d) or (only and sid not in only):
         continue
     prop = json.load(open(d + '/meta.json'))['property']
-    checks = [prop] + ([extra[sid]] if sid in extra else [])
-    for chk in checks:
+    for chk in [prop] + extra.get(sid, []):
         key = '%s@%s' % (sid, chk)
         if key in res and not only:
             continue
-        env = dict(os.environ, GOSYM_TIME_BUDGET='400')
+        todo.append((key, d, chk))
+
+
+def one(t):
+    key, d, chk = t
+    env = dict(os.environ, GOSYM_TIME_BUDGET='400')
+    try:
         p = subprocess.run([V + '/tools/try_mutant.sh', d + '/patch.diff', chk, 'quick'], stdout=subprocess.PIPE, stderr=subprocess.STDOUT, text=True, env=env, timeout=3600)
-        m = re.search(r'rc=(\d+)', p.stdout)
-        rc = int(m.group(1)) if m else -1
-        viol = re.findall(r'^  (.*)', p.stdout, re.M)
-        res[key] = {'rc': rc, 'verdict': {0: 'MISSED (check passes)', 1: 'VIOLATION', 2: 'INCONCLUSIVE'}.get(rc, 'error'), 'detail': (viol or p.stdout.strip().splitlines()[-1:])[0][:300] if (viol or p.stdout.strip()) else ''}
+        out = p.stdout
+    except subprocess.TimeoutExpired as e:
+        out = 'rc=2 timeout'
+    m = re.search(r'rc=(\d+)', out)
+    rc = int(m.group(1)) if m else -1
+    viol = re.findall(r'^  (.*)', out, re.M)
+    with lock:
+        res[key] = {'rc': rc, 'verdict': {0: 'MISSED (check passes)', 1: 'VIOLATION', 2: 'INCONCLUSIVE'}.get(rc, 'error'), 'detail': (viol or out.strip().splitlines()[-1:])[0][:300] if (viol or out.strip()) else ''}
         print(key, res[key]['verdict'], flush=True)
-        json.dump(res, open(V + '/seeded/RESULTS.json', 'w'), indent=1)
+        json.dump(res, open(V + '/seeded/RESULTS.json', 'w'), indent=1, sort_keys=True)
+
+
+with ThreadPoolExecutor(jobs) as ex:
+    list(ex.map(one, todo))
 lines = ['| seeded change | check | result | detail |', '|---|---|---|---|']
 for k in sorted(res):
-    lines.append('| %s | %s | %s | %s |' % (k.split('@')[0], k.split('@')[1], res[k]['verdict'], res[k]['detail'].replace('|', '/')[:160]))
+    lines.append('| %s | %s | %s | %s |' % (k.split('@')[0], k.split('@')[1], res[k]['verdict'], re.sub(r'/tmp/mw_\w+/', '', res[k]['detail']).replace('|', '/')[:160]))
 open(V + '/seeded/RESULTS.md', 'w').write('\n'.join(lines) + '\n')
